@@ -360,6 +360,9 @@ package otto
 //@   ensures isGoNumber(argOf(call, 0)) && isGoNumber(argOf(call, 1)) && numOf(argOf(call, 1)) == 0.0 ==> result.value.(float64) == 1.0
 //@   ensures isGoNumber(argOf(call, 0)) && isGoNumber(argOf(call, 1)) && isNaN(numOf(argOf(call, 0))) && numOf(argOf(call, 1)) != 0.0 ==> isNaN(result.value.(float64))
 //@   ensures isGoNumber(argOf(call, 0)) && isGoNumber(argOf(call, 1)) && fabs(numOf(argOf(call, 0))) == 1.0 && isInf(numOf(argOf(call, 1))) ==> isNaN(result.value.(float64))
+//@   calls math.Pow(_, _) as m when isGoNumber(argOf(call, 0)) && isGoNumber(argOf(call, 1)) && !isNaN(numOf(argOf(call, 1))) && !(fabs(numOf(argOf(call, 0))) == 1.0 && isInf(numOf(argOf(call, 1))))
+//@   at_call math.Pow : isGoNumber(argOf(call, 0)) && isGoNumber(argOf(call, 1)) ==> sameFloat(arg0, numOf(argOf(call, 0))) && sameFloat(arg1, numOf(argOf(call, 1)))
+//@   ensures isGoNumber(argOf(call, 0)) && isGoNumber(argOf(call, 1)) && !isNaN(numOf(argOf(call, 1))) && !(fabs(numOf(argOf(call, 0))) == 1.0 && isInf(numOf(argOf(call, 1)))) ==> called(m) && sameFloat(numOf(result), m)
 
 // ES5 15.8.2.5: atan2 is NaN if either argument is NaN.
 //@ func builtinMathAtan2
@@ -367,6 +370,9 @@ package otto
 //@   requires wfCall(call) && argOK(call, 0) && argOK(call, 1)
 //@   stable call.ArgumentList
 //@   ensures isGoNumber(argOf(call, 0)) && isGoNumber(argOf(call, 1)) && (isNaN(numOf(argOf(call, 0))) || isNaN(numOf(argOf(call, 1)))) ==> isNaN(result.value.(float64)) && result.kind == valueNumber
+//@   calls math.Atan2(_, _) as m when isGoNumber(argOf(call, 0)) && isGoNumber(argOf(call, 1)) && !isNaN(numOf(argOf(call, 0))) && !isNaN(numOf(argOf(call, 1)))
+//@   at_call math.Atan2 : isGoNumber(argOf(call, 0)) && isGoNumber(argOf(call, 1)) ==> sameFloat(arg0, numOf(argOf(call, 0))) && sameFloat(arg1, numOf(argOf(call, 1)))
+//@   ensures isGoNumber(argOf(call, 0)) && isGoNumber(argOf(call, 1)) && !isNaN(numOf(argOf(call, 0))) && !isNaN(numOf(argOf(call, 1))) ==> called(m) && isGoNumber(result) && sameFloat(numOf(result), m)
 
 // ---------------------------------------------------------------------------
 // otto_.go, type_array.go: index kernels (C08, C09)
@@ -2598,3 +2604,166 @@ package otto
 //@   requires wfCall(call) && argsOK(call.ArgumentList) && call.runtime != nil
 //@   stable call.ArgumentList
 //@   nocall golang.org/x/text/language.MustParse(_)
+
+// Math.* wrappers (15.8.2): the result is the number the named library function returns for
+// ToNumber(x) - this ties each builtin to its operation (acos is not asin, floor is not ceil).
+//@ func builtinMathAbs
+//@   props C13
+//@   requires wfCall(call) && argOK(call, 0)
+//@   stable call.ArgumentList
+//@   ensures isGoNumber(argOf(call, 0)) ==> isGoNumber(result) && sameFloat(numOf(result), fabs(numOf(argOf(call, 0))))
+//@ func builtinMathCeil
+//@   props C13
+//@   requires wfCall(call) && argOK(call, 0)
+//@   stable call.ArgumentList
+//@   ensures isGoNumber(argOf(call, 0)) ==> isGoNumber(result) && sameFloat(numOf(result), ceil(numOf(argOf(call, 0))))
+//@ func builtinMathFloor
+//@   props C13
+//@   requires wfCall(call) && argOK(call, 0)
+//@   stable call.ArgumentList
+//@   ensures isGoNumber(argOf(call, 0)) ==> isGoNumber(result) && sameFloat(numOf(result), floor(numOf(argOf(call, 0))))
+//@ func builtinMathTrunc
+//@   props C13
+//@   requires wfCall(call) && argOK(call, 0)
+//@   stable call.ArgumentList
+//@   ensures isGoNumber(argOf(call, 0)) ==> isGoNumber(result) && sameFloat(numOf(result), trunc(numOf(argOf(call, 0))))
+//@ func builtinMathAcos
+//@   props C13
+//@   requires wfCall(call) && argOK(call, 0)
+//@   stable call.ArgumentList
+//@   calls math.Acos(_) as m
+//@   at_call math.Acos : isGoNumber(argOf(call, 0)) ==> sameFloat(arg0, numOf(argOf(call, 0)))
+//@   ensures isGoNumber(argOf(call, 0)) ==> called(m) && isGoNumber(result) && sameFloat(numOf(result), m)
+//@ func builtinMathAcosh
+//@   props C13
+//@   requires wfCall(call) && argOK(call, 0)
+//@   stable call.ArgumentList
+//@   calls math.Acosh(_) as m
+//@   at_call math.Acosh : isGoNumber(argOf(call, 0)) ==> sameFloat(arg0, numOf(argOf(call, 0)))
+//@   ensures isGoNumber(argOf(call, 0)) ==> called(m) && isGoNumber(result) && sameFloat(numOf(result), m)
+//@ func builtinMathAsin
+//@   props C13
+//@   requires wfCall(call) && argOK(call, 0)
+//@   stable call.ArgumentList
+//@   calls math.Asin(_) as m
+//@   at_call math.Asin : isGoNumber(argOf(call, 0)) ==> sameFloat(arg0, numOf(argOf(call, 0)))
+//@   ensures isGoNumber(argOf(call, 0)) ==> called(m) && isGoNumber(result) && sameFloat(numOf(result), m)
+//@ func builtinMathAsinh
+//@   props C13
+//@   requires wfCall(call) && argOK(call, 0)
+//@   stable call.ArgumentList
+//@   calls math.Asinh(_) as m
+//@   at_call math.Asinh : isGoNumber(argOf(call, 0)) ==> sameFloat(arg0, numOf(argOf(call, 0)))
+//@   ensures isGoNumber(argOf(call, 0)) ==> called(m) && isGoNumber(result) && sameFloat(numOf(result), m)
+//@ func builtinMathAtan
+//@   props C13
+//@   requires wfCall(call) && argOK(call, 0)
+//@   stable call.ArgumentList
+//@   calls math.Atan(_) as m
+//@   at_call math.Atan : isGoNumber(argOf(call, 0)) ==> sameFloat(arg0, numOf(argOf(call, 0)))
+//@   ensures isGoNumber(argOf(call, 0)) ==> called(m) && isGoNumber(result) && sameFloat(numOf(result), m)
+//@ func builtinMathAtanh
+//@   props C13
+//@   requires wfCall(call) && argOK(call, 0)
+//@   stable call.ArgumentList
+//@   calls math.Atanh(_) as m
+//@   at_call math.Atanh : isGoNumber(argOf(call, 0)) ==> sameFloat(arg0, numOf(argOf(call, 0)))
+//@   ensures isGoNumber(argOf(call, 0)) ==> called(m) && isGoNumber(result) && sameFloat(numOf(result), m)
+//@ func builtinMathCbrt
+//@   props C13
+//@   requires wfCall(call) && argOK(call, 0)
+//@   stable call.ArgumentList
+//@   calls math.Cbrt(_) as m
+//@   at_call math.Cbrt : isGoNumber(argOf(call, 0)) ==> sameFloat(arg0, numOf(argOf(call, 0)))
+//@   ensures isGoNumber(argOf(call, 0)) ==> called(m) && isGoNumber(result) && sameFloat(numOf(result), m)
+//@ func builtinMathCos
+//@   props C13
+//@   requires wfCall(call) && argOK(call, 0)
+//@   stable call.ArgumentList
+//@   calls math.Cos(_) as m
+//@   at_call math.Cos : isGoNumber(argOf(call, 0)) ==> sameFloat(arg0, numOf(argOf(call, 0)))
+//@   ensures isGoNumber(argOf(call, 0)) ==> called(m) && isGoNumber(result) && sameFloat(numOf(result), m)
+//@ func builtinMathCosh
+//@   props C13
+//@   requires wfCall(call) && argOK(call, 0)
+//@   stable call.ArgumentList
+//@   calls math.Cosh(_) as m
+//@   at_call math.Cosh : isGoNumber(argOf(call, 0)) ==> sameFloat(arg0, numOf(argOf(call, 0)))
+//@   ensures isGoNumber(argOf(call, 0)) ==> called(m) && isGoNumber(result) && sameFloat(numOf(result), m)
+//@ func builtinMathExp
+//@   props C13
+//@   requires wfCall(call) && argOK(call, 0)
+//@   stable call.ArgumentList
+//@   calls math.Exp(_) as m
+//@   at_call math.Exp : isGoNumber(argOf(call, 0)) ==> sameFloat(arg0, numOf(argOf(call, 0)))
+//@   ensures isGoNumber(argOf(call, 0)) ==> called(m) && isGoNumber(result) && sameFloat(numOf(result), m)
+//@ func builtinMathExpm1
+//@   props C13
+//@   requires wfCall(call) && argOK(call, 0)
+//@   stable call.ArgumentList
+//@   calls math.Expm1(_) as m
+//@   at_call math.Expm1 : isGoNumber(argOf(call, 0)) ==> sameFloat(arg0, numOf(argOf(call, 0)))
+//@   ensures isGoNumber(argOf(call, 0)) ==> called(m) && isGoNumber(result) && sameFloat(numOf(result), m)
+//@ func builtinMathLog
+//@   props C13
+//@   requires wfCall(call) && argOK(call, 0)
+//@   stable call.ArgumentList
+//@   calls math.Log(_) as m
+//@   at_call math.Log : isGoNumber(argOf(call, 0)) ==> sameFloat(arg0, numOf(argOf(call, 0)))
+//@   ensures isGoNumber(argOf(call, 0)) ==> called(m) && isGoNumber(result) && sameFloat(numOf(result), m)
+//@ func builtinMathLog10
+//@   props C13
+//@   requires wfCall(call) && argOK(call, 0)
+//@   stable call.ArgumentList
+//@   calls math.Log10(_) as m
+//@   at_call math.Log10 : isGoNumber(argOf(call, 0)) ==> sameFloat(arg0, numOf(argOf(call, 0)))
+//@   ensures isGoNumber(argOf(call, 0)) ==> called(m) && isGoNumber(result) && sameFloat(numOf(result), m)
+//@ func builtinMathLog1p
+//@   props C13
+//@   requires wfCall(call) && argOK(call, 0)
+//@   stable call.ArgumentList
+//@   calls math.Log1p(_) as m
+//@   at_call math.Log1p : isGoNumber(argOf(call, 0)) ==> sameFloat(arg0, numOf(argOf(call, 0)))
+//@   ensures isGoNumber(argOf(call, 0)) ==> called(m) && isGoNumber(result) && sameFloat(numOf(result), m)
+//@ func builtinMathLog2
+//@   props C13
+//@   requires wfCall(call) && argOK(call, 0)
+//@   stable call.ArgumentList
+//@   calls math.Log2(_) as m
+//@   at_call math.Log2 : isGoNumber(argOf(call, 0)) ==> sameFloat(arg0, numOf(argOf(call, 0)))
+//@   ensures isGoNumber(argOf(call, 0)) ==> called(m) && isGoNumber(result) && sameFloat(numOf(result), m)
+//@ func builtinMathSin
+//@   props C13
+//@   requires wfCall(call) && argOK(call, 0)
+//@   stable call.ArgumentList
+//@   calls math.Sin(_) as m
+//@   at_call math.Sin : isGoNumber(argOf(call, 0)) ==> sameFloat(arg0, numOf(argOf(call, 0)))
+//@   ensures isGoNumber(argOf(call, 0)) ==> called(m) && isGoNumber(result) && sameFloat(numOf(result), m)
+//@ func builtinMathSinh
+//@   props C13
+//@   requires wfCall(call) && argOK(call, 0)
+//@   stable call.ArgumentList
+//@   calls math.Sinh(_) as m
+//@   at_call math.Sinh : isGoNumber(argOf(call, 0)) ==> sameFloat(arg0, numOf(argOf(call, 0)))
+//@   ensures isGoNumber(argOf(call, 0)) ==> called(m) && isGoNumber(result) && sameFloat(numOf(result), m)
+//@ func builtinMathSqrt
+//@   props C13
+//@   requires wfCall(call) && argOK(call, 0)
+//@   stable call.ArgumentList
+//@   calls math.Sqrt(_) as m
+//@   at_call math.Sqrt : isGoNumber(argOf(call, 0)) ==> sameFloat(arg0, numOf(argOf(call, 0)))
+//@   ensures isGoNumber(argOf(call, 0)) ==> called(m) && isGoNumber(result) && sameFloat(numOf(result), m)
+//@ func builtinMathTan
+//@   props C13
+//@   requires wfCall(call) && argOK(call, 0)
+//@   stable call.ArgumentList
+//@   calls math.Tan(_) as m
+//@   at_call math.Tan : isGoNumber(argOf(call, 0)) ==> sameFloat(arg0, numOf(argOf(call, 0)))
+//@   ensures isGoNumber(argOf(call, 0)) ==> called(m) && isGoNumber(result) && sameFloat(numOf(result), m)
+//@ func builtinMathTanh
+//@   props C13
+//@   requires wfCall(call) && argOK(call, 0)
+//@   stable call.ArgumentList
+//@   calls math.Tanh(_) as m
+//@   at_call math.Tanh : isGoNumber(argOf(call, 0)) ==> sameFloat(arg0, numOf(argOf(call, 0)))
+//@   ensures isGoNumber(argOf(call, 0)) ==> called(m) && isGoNumber(result) && sameFloat(numOf(result), m)
